@@ -2610,6 +2610,27 @@ class NetCDFRead(IORead):
             # We've already parsed this geometry container, so record
             # the fact that this parent netCDF variable has this
             # geometry variable and return.
+            #
+            # The cells of the geometry lie along the geometry
+            # dimension, which (as for the variable for which the
+            # container was parsed) has to be a dimension of this
+            # variable.
+            geometry_dimension = g["geometries"][geometry_ncvar].get(
+                "geometry_dimension"
+            )
+            if geometry_dimension not in g["variable_dimensions"][parent_ncvar]:
+                self._add_message(
+                    parent_ncvar,
+                    geometry_ncvar,
+                    message=(
+                        "Geometry variable",
+                        "spans incorrect dimensions",
+                    ),
+                    attribute={parent_ncvar + ":geometry": geometry_attribute},
+                    dimensions=(geometry_dimension,),
+                )
+                return
+
             g["variable_geometry"][parent_ncvar] = geometry_ncvar
             return
 
